@@ -15,7 +15,7 @@ import tflsum
 import vlib
 
 FAMS = ["mixed_cpu", "unsupported", "ew_dag", "multi_custom", "mixed_cpu", "diamond", "single", "unsupported", "lut_heavy", "conv_chain",
-        "multi_subgraph", "lstm"]
+        "multi_subgraph", "lstm", "rewrite_patterns"]
 
 
 def h(*parts):
